@@ -158,14 +158,21 @@ func (r *Runner) RunCase(idx int, verbose bool) {
 		r.P.Run(c)
 		return
 	}
-	first := c.Captured(func() { r.P.Run(c) })
+	// one case in 48 is evaluated right behind a case of ANOTHER property (its outcome is
+	// ignored): whatever the library keeps between calls must not carry over from one
+	// operator family to another. The foreign case is part of the evaluation of this index,
+	// so a re-evaluation repeats it.
+	eval := func() { r.evaluate(c) }
+	if q, _ := r.foreignCase(idx); q != nil {
+		r.Res.Counters["cases-evaluated-right-behind-a-case-of-another-property"]++
+	}
+	first := c.Captured(eval)
 	if len(first) == 0 {
 		return
 	}
 	again, history := 0, 0
 	for k := 0; k < 2 && again == 0; k++ {
-		c.R = gen.ForCase(r.Seed, r.P.ID, idx)
-		again += len(c.Captured(func() { r.P.Run(c) }))
+		again += len(c.Captured(eval))
 	}
 	// not shown again alone: the deviation may depend on what the library kept from the cases
 	// before it (process-wide pools, caches, memos). Replay the case behind its predecessor,
@@ -182,10 +189,9 @@ func (r *Runner) RunCase(idx int, verbose bool) {
 		for _, h := range spans {
 			for j := idx - h; j < idx; j++ {
 				scratch := &Ctx{Prop: r.P.ID, Tier: r.Tier, Seed: r.Seed, Idx: j, R: gen.ForCase(r.Seed, r.P.ID, j), res: NewResult(r.P.ID, j, j+1), hashes: map[uint64]struct{}{}, sets: map[string]map[uint64]struct{}{}}
-				_ = scratch.Captured(func() { r.P.Run(scratch) })
+				_ = scratch.Captured(func() { r.evaluate(scratch) })
 			}
-			c.R = gen.ForCase(r.Seed, r.P.ID, idx)
-			if n := len(c.Captured(func() { r.P.Run(c) })); n > 0 {
+			if n := len(c.Captured(eval)); n > 0 {
 				again, history = n, h
 				break
 			}
@@ -204,6 +210,46 @@ func (r *Runner) RunCase(idx int, verbose bool) {
 		r.Res.Counters["deviations-not-shown-again-on-re-evaluation"]++
 		c.Violation(GCUnreproducedSignature, "%s: %s [the same case evaluated again - alone twice, and behind the cases before it - showed no deviation at all]", v.Sig, v.Detail)
 	}
+}
+
+// evaluate runs case c.Idx: the case of another property in front of it (one case in 48,
+// outcome ignored), then the case itself from a fresh PRNG state.
+func (r *Runner) evaluate(c *Ctx) {
+	if q, j := r.foreignCase(c.Idx); q != nil {
+		c.Logf("evaluated right behind case %d of %s (outcome ignored)", j, q.ID)
+		scratch := &Ctx{Prop: q.ID, Tier: r.Tier, Seed: r.Seed, Idx: j, R: gen.ForCase(r.Seed, q.ID, j), res: NewResult(q.ID, j, j+1), hashes: map[uint64]struct{}{}, sets: map[string]map[uint64]struct{}{}}
+		func() {
+			defer func() { _ = recover() }()
+			_ = scratch.Captured(func() { q.Run(scratch) })
+		}()
+	}
+	c.R = gen.ForCase(r.Seed, r.P.ID, c.Idx)
+	r.P.Run(c)
+}
+
+// foreignProps are the (single-goroutine, cheap) properties whose cases serve as the
+// "case of another property" in front of one case in 48.
+var foreignProps = []string{"C03", "C04", "C05", "C06", "C07", "C08", "C09", "C10", "C11", "C14", "C15"}
+
+// foreignCase returns the property and case index evaluated in front of case idx (nil: none).
+func (r *Runner) foreignCase(idx int) (*Property, int) {
+	if idx%48 != 29 || r.P.RaceOnly {
+		return nil, 0
+	}
+	h := gen.HashStr(fmt.Sprintf("%s/%d/%d", r.P.ID, r.Seed, idx))
+	id := foreignProps[h%uint64(len(foreignProps))]
+	if id == r.P.ID {
+		id = foreignProps[(h+1)%uint64(len(foreignProps))]
+	}
+	q := Get(id)
+	if q == nil {
+		return nil, 0
+	}
+	n := q.Cases("quick")
+	if n <= 0 {
+		return nil, 0
+	}
+	return q, int((h >> 8) % uint64(n))
 }
 
 // GCUnreproducedSignature names, in the deterministic checks, a deviation that did
